@@ -82,7 +82,7 @@ def _same(a, b):
 def run(case, ctx):
     name, cfg = case["det"], case["cfg"]
     k = adapters.kind(name)
-    P = ctx.call(f"C02:{name}:ctor", adapters.build, name, cfg)
+    P = ctx.call(f"C02:{name}:ctor", adapters.build, name, cfg, case.get("retype"))     # (the fresh twins get the plain types)
     T = None
     offset = None          # P.total - T.total, fixed at the first lock-step call
     cause = None
